@@ -20,8 +20,8 @@ use crate::{
         format::format_part,
         offset::{add_offset_to_dn, remove_offset_from_dn},
         parse::{
-            parse_format_string, parse_offset, parse_part, ParseUnit, ParsedDate, ParsedTime,
-            Period,
+            parse_format_string, parse_offset, parse_part, remove_escaped_part, remove_part,
+            unescape_part, ParseUnit, ParsedDate, ParsedTime, Period,
         },
         time::{
             convert::{
@@ -249,6 +249,11 @@ impl DateTime {
                 "RFC 3339 string cannot be shorter than 20 chars".to_string(),
             ));
         }
+        if !string.is_ascii() {
+            return Err(create_invalid_format(
+                "RFC 3339 string can only contain ASCII chars".to_string(),
+            ));
+        }
 
         let year = string[0..4].parse::<i32>().map_err(|_| {
             create_invalid_format("Failed parsing year from RFC 3339 string".to_string())
@@ -355,13 +360,13 @@ impl DateTime {
         for part in parts {
             // Escaped apostrophes
             if part.starts_with('\u{0000}') {
-                string.replace_range(0..part.len(), "");
+                remove_part(part.chars().count(), &mut string)?;
                 continue;
             }
 
             // Escaped parts
             if part.starts_with('\'') {
-                string.replace_range(0..part.len() - if part.ends_with('\'') { 2 } else { 1 }, "");
+                remove_escaped_part(&part, &mut string)?;
                 continue;
             }
 
@@ -544,9 +549,7 @@ impl DateTime {
                 // Escape parts starting with apostrophe
                 if part.starts_with('\'') {
                     let part = part.replace('\u{0000}', "'");
-                    return part[1..part.len() - usize::from(part.ends_with('\''))]
-                        .chars()
-                        .collect::<Vec<char>>();
+                    return unescape_part(&part).chars().collect::<Vec<char>>();
                 }
 
                 format_part(part, days, nanoseconds, offset_seconds)
